@@ -232,3 +232,12 @@ Theorem C15_collapse_halfcells_are_the_source `{Sig} :
   (forall n ks d_pe d_e d_ne, gen_collapse_halfcell_to_base n ks d_pe d_e d_ne = collapse_halfcell_to_base n ks d_pe d_e d_ne).
 Proof. exact collapse_halfcells_are_the_source. Qed.
 Print Assumptions C15_collapse_halfcells_are_the_source.
+
+(** ... and so are the two drivers that call them (one half-cell per side of the edge, then the identifier of the
+    resulting vertex): [collapse_edge_to_midpoint] -- the program of C15_collapse_midpoint_topology and
+    C15_collapse_midpoint_keeps_wf2 -- and [collapse_edge_to_base]. *)
+Theorem C15_collapse_drivers_are_the_source `{Sig} :
+  (forall n ks b0l l b1l b0r r b1r, gen_collapse_edge_to_midpoint n ks b0l l b1l b0r r b1r = collapse_edge_to_midpoint n ks b0l l b1l b0r r b1r) /\
+  (forall n ks b0l l b1l b0r r b1r, gen_collapse_edge_to_base n ks b0l l b1l b0r r b1r = collapse_edge_to_base n ks b0l l b1l b0r r b1r).
+Proof. exact collapse_drivers_are_the_source. Qed.
+Print Assumptions C15_collapse_drivers_are_the_source.
